@@ -410,10 +410,10 @@ INFO['C17'] = {
 }
 INFO['C05'] = {
     'bounds': 'all ordered pairs of {row-major, Morton pdep, Morton portable, Hilbert}, N=1..3 (Hilbert N=2), every extent vector with '
-              'extents 1..3 for N<=2 and 1..2 for N=3 (quick) / 1..5 for N=2 (thorough), plus fixed non-power-of-two shapes 5x5, 5x3, 6x7, 3x3x3, 3x2x3, 5 (thorough: 9x9, 5x5x5, 6x3x5, 17x3), storage float1/double3 with all bit patterns, symbolic '
+              'extents 1..3 for N<=2 and 1..2 for N=3 (quick) / 1..5 for N=2 (thorough), plus fixed non-power-of-two shapes 5x5, 5x3, 6x7, 3x3x3, 3x2x3, 5, 2x1x3x2 (thorough: 9x9, 5x5x5, 6x3x5, 17x3, 3x3x3x3, 2x3x1x5), storage float1/double3 with all bit patterns, symbolic '
               'probe coordinate: same configuration, same value, source unchanged, own storage, round trip, independence of writes, no leak; '
               'whole-stack affine<I1<L1<array>>> -> affine<I2<L2<array>>> for I in {nearest, linear}: matrix and layout-level contents',
-    'outside': 'extents above the bound, N=4; CUDA device arrays: cuda_runtime.h is not in the image and no shim was built (CUDA conversion not covered)',
+    'outside': 'extents above the bound; CUDA device arrays: cuda_runtime.h is not in the image and no shim was built (CUDA conversion not covered)',
     'cuts': 'none (nd_map std::function closures, heap allocation and indirect calls are executed as they are)', 'assumptions': [],
 }
 
@@ -470,20 +470,20 @@ def units_C05(tier, seed):
                           sites=[1, 2, 3, 4, 5, 6, 7, 8, 9], flavours=('rel', 'san', 'dbg') if (n == 2 and a == 0) else ('rel',),
                           diff=(n == 2 and a == 0), weight=bnd ** n * 10, timeout=1800)
     # fixed larger extents whose maximum is not a power of two (storage sizing of the curves: 5x5, 3x3x3, ...)
-    fixed = [(2, (5, 5, 0)), (2, (5, 3, 0)), (2, (6, 7, 0)), (3, (3, 3, 3)), (3, (3, 2, 3)), (1, (5, 0, 0))]
+    fixed = [(2, (5, 5, 0, 0)), (2, (5, 3, 0, 0)), (2, (6, 7, 0, 0)), (3, (3, 3, 3, 0)), (3, (3, 2, 3, 0)), (1, (5, 0, 0, 0)), (4, (2, 1, 3, 2))]
     if th:
-        fixed += [(2, (9, 9, 0)), (3, (5, 5, 5)), (3, (6, 3, 5)), (2, (17, 3, 0))]
+        fixed += [(2, (9, 9, 0, 0)), (3, (5, 5, 5, 0)), (3, (6, 3, 5, 0)), (2, (17, 3, 0, 0)), (4, (3, 3, 3, 3)), (4, (2, 3, 1, 5))]
     for n, e in fixed:
         for a, b in ((0, 1), (0, 2), (2, 0), (1, 2), (0, 3), (3, 0), (2, 3)):
             if 3 in (a, b) and n != 2:
                 continue
-            if not th and (a, b) in ((1, 2), (2, 3)) and e != (5, 5, 0):
+            if not th and (a, b) in ((1, 2), (2, 3)) and e != (5, 5, 0, 0):
                 continue
             v = 'f2' if (a + b + n + e[0]) % 2 else 'd1'
             ex = ['-mbmi2'] if 1 in (a, b) else []
             U += unit(f'c05_convfixed_{LAYNAME[a]}_{LAYNAME[b]}_{"x".join(str(x) for x in e[:n])}_{v}', H,
-                      f'conv_fixed_h<{a},{b},{n},{VEC[v]},{e[0]},{e[1]},{e[2]}>()', extra=ex, sites=[1, 2, 3, 4, 5, 6, 7, 8, 9],
-                      weight=e[0] * max(1, e[1]) * max(1, e[2]), timeout=3000, cfg={'sym_cells_cap': 4096})
+                      f'conv_fixed_h<{a},{b},{n},{VEC[v]},{e[0]},{e[1]},{e[2]},{e[3]}>()', extra=ex, sites=[1, 2, 3, 4, 5, 6, 7, 8, 9],
+                      weight=e[0] * max(1, e[1]) * max(1, e[2]) * max(1, e[3]), timeout=3000, cfg={'sym_cells_cap': 4096})
     for i1, l1, i2, l2 in ((0, 0, 1, 2), (1, 0, 0, 1), (1, 2, 1, 0), (0, 1, 0, 0), (1, 0, 1, 3), (0, 3, 1, 0)):
         for n in ((2,) if not th else (1, 2, 3)):
             if 3 in (l1, l2) and n != 2:
